@@ -29,7 +29,7 @@ LEVEL = "fault_enumeration"
 BUDGET = {"quick": 400, "thorough": 6000}
 RUN_TIMEOUT = 60
 RANDOM_PER_RUN = {"quick": 1000, "thorough": 2000}
-MAX_LAYERS = 160
+MAX_LAYERS = 400   # (a 1514-byte frame holds 375 four-byte tags or labels)
 LINE_BUDGET = 2000000        # traced lines allowed for one case (hang guard)
 CASE_CPU_S = 5.0             # CPU seconds before the traced re-run is made
 
@@ -1479,7 +1479,9 @@ def _g_stack(r, hostile):
   kind = r.pick(["vlan", "mpls", "mixed"])
   out = inner
   et = inner_t
-  depth = r.randint(1, 6)
+  # mostly a few levels; sometimes as many as fit a 1514-byte frame
+  depth = r.wpick([(8, r.randint(1, 6)), (1, r.randint(7, 120)),
+                   (1, r.randint(300, 375))])
   if kind == "mpls" or (kind == "mixed" and r.chance(0.5)):
     lab = b""
     for i in range(depth):
@@ -1496,7 +1498,8 @@ def _g_stack(r, hostile):
       tci = (r.randrange(8) << 13) | (r.randrange(2) << 12) | r.pick(
         [0, 1, 100, 4095])
       out = _be16(tci) + _be16(et if et >= 0x600 else len(out)) + out
-      et = r.pick([0x8100, 0x8100, 0x8100, 0x88a8, 0x9100])
+      et = 0x8100 if depth > 6 else r.pick([0x8100, 0x8100, 0x8100, 0x88a8,
+                                            0x9100])
   if et < 0x600:
     et = len(out)
   return F.eth(M2, M1, et, out)
@@ -1504,7 +1507,8 @@ def _g_stack(r, hostile):
 
 def _g_rip(r, hostile):
   n = r.pick([0, 1, 2, 25]) if not hostile else r.pick([0, 1, 26, 40])
-  ents = [(r.pick([2, 2, 0, 0xffff, 10]), r.randrange(65536),
+  ents = [(r.pick([2, 2, 0, 0xffff, 0xffff, 10]),
+           r.pick([0, 1, 2, 2, 3, r.randrange(65536)]),
            r.randrange(2**32),
            r.pick([0, 0xffffff00, 0xffffffff, 0x00ffff00]), r.randrange(2**32),
            r.pick([0, 1, 15, 16, 17, 2**32 - 1])) for _ in range(n)]
